@@ -6,14 +6,17 @@ import os
 import re
 
 V = os.path.dirname(os.path.dirname(os.path.abspath(__file__)))
-rows = ["| id | change (one line) | needs | suite with change | detected by (keys of the replays) |", "|---|---|---|---|---|"]
-n = det = 0
+rows = ["| id | change (one line) | needs | suite with change | detected by (keys of the replays) | final re-trial |",
+        "|---|---|---|---|---|---|"]
+n = det = rt_app = rt_det = rt_inp = 0
 for d in sorted(glob.glob(os.path.join(V, "seeded", "*"))):
     m = json.load(open(os.path.join(d, "meta.json")))
     w = m["what_was_run"]
     keys = []
     for r in w["ran"]:
         for l in r["violation_lines"]:
+            if "replay=" not in l:
+                continue
             k = l.split("replay=")[1].split()[0].split("/")[-1]
             k = re.sub(r"-\d+\.json$", "", k)
             k = re.sub(r"^C\d\d-", "", k)
@@ -22,13 +25,26 @@ for d in sorted(glob.glob(os.path.join(V, "seeded", "*"))):
     if m.get("confirmed_by_integrator"):
         n += 1
         det += 1 if w.get("detected_by") else 0
-    rows.append("| %s | %s | %s | %s | %s |" % (
+    rt = m.get("retrial")
+    if rt is None:
+        rtx = "—"
+    elif not rt.get("applies"):
+        rtx = "patch no longer applies (code repaired since)"
+    else:
+        rt_app += 1
+        rt_det += 1 if rt.get("detected") else 0
+        rt_inp += 1 if rt.get("detected") and rt.get("with_failing_input") else 0
+        rtx = ("detected, failing input" if rt.get("with_failing_input") else "detected, no-failing-input-found") \
+            if rt.get("detected") else "NOT detected"
+    rows.append("| %s | %s | %s | %s | %s | %s |" % (
         os.path.basename(d), (m.get("summary") or "")[:160].replace("|", "/"), (m.get("needs") or "")[:120].replace("|", "/"),
         (m.get("suite_with_change") or "not run yet")[:30],
         ("%s: %s" % (",".join(w.get("detected_by") or ["—"]), "; ".join(sorted(set(keys))[:3])[:150])) if m.get("confirmed_by_integrator")
-        else "not counted — " + (m.get("note") or "")[:120]))
+        else "not counted — " + (m.get("note") or "")[:120], rtx))
 rows.append("")
-rows.append("%d confirmed seeded changes, %d detected with the checks as committed (each with a replay)." % (n, det))
+rows.append("%d confirmed seeded changes, %d detected when they were trialled (`git -C /repo apply`, registered quick check, undo). "
+            "Final re-trial on the repaired HEAD with all step ties (tools/retrial_all.py, scratch worktrees): %d patches still "
+            "apply, %d detected, %d of them with a concrete failing input." % (n, det, rt_app, rt_det, rt_inp))
 s = open(os.path.join(V, "DESIGN.md")).read()
 block = "<!-- seeded-table -->\n" + "\n".join(rows) + "\n<!-- /seeded-table -->"
 if "@SEEDED_TABLE@" in s:
